@@ -249,7 +249,10 @@ def legacySet (st : Store) (id : Name) (r : Ixn) : Store × Option Err :=
   else if id = [] then (st, some .missingId)
   else
     let r' := { r with prec := precOf r.src r.dst }
-    if st.rows.any (fun x => x.2.src = r.src && x.2.dst = r.dst && x.1 ≠ id) then (st, some .dupLegacy)
+    -- the unique `source_destination` index skips rows with an empty name (memdb `CompoundIndex`
+    -- without AllowMissing: a missing field leaves the row unindexed), so those are never "duplicates"
+    if r.src ≠ [] && r.dst ≠ [] && st.rows.any (fun x => x.2.src = r.src && x.2.dst = r.dst && x.1 ≠ id) then
+      (st, some .dupLegacy)
     else if st.rows.any (·.1 = id) then
       ({ st with rows := st.rows.map fun x => if x.1 = id then (id, r') else x }, none)
     else ({ st with rows := st.rows ++ [(id, r')] }, none)
@@ -314,8 +317,8 @@ def legacyNames (n : Name) : List Name := if n = star then [star] else [star, n]
 def legacyRaw (rows : List Ixn) (side : Side) (n : Name) : List Ixn :=
   (legacyNames n).flatMap fun m => rows.filter fun r =>
     match side with
-    | .source => r.src = m
-    | .destination => r.dst = m
+    | .source => m ≠ [] && r.src = m          -- rows with an empty name are not in the index
+    | .destination => m ≠ [] && r.dst = m
 
 /-- `Store.IntentionMatch` / `IntentionMatchOne` for one entry -/
 def matchList (st : Store) (side : Side) (n : Name) : List Ixn :=
